@@ -12,23 +12,24 @@ import (
 const vsymPkg = "github.com/attestantio/dirk/zzverif/vsym"
 
 type intrinsicState struct {
-	reached     map[string]int
-	forbidCrash bool
-	gomaxprocs  value
-	clock       func(i *interpreter) value
-	clockReads  int
-	clockBase   int64
-	timers      []*modelTimer
-	faults      map[string]int
-	faultsOn    bool
-	faultBudget int
-	faultsUsed  int
-	faultFilter func(site string) bool
-	crashOn     bool
-	crashBudget int
-	crashesUsed int
-	midFlush    bool
-	crashCalls  map[string]int
+	reached      map[string]int
+	forbidCrash  bool
+	gomaxprocs   value
+	clock        func(i *interpreter) value
+	clockReads   int
+	clockBase    int64
+	timers       []*modelTimer
+	faults       map[string]int
+	faultsOn     bool
+	faultBudget  int
+	faultedSites map[string]bool
+	faultsUsed   int
+	faultFilter  func(site string) bool
+	crashOn      bool
+	crashBudget  int
+	crashesUsed  int
+	midFlush     bool
+	crashCalls   map[string]int
 }
 
 func boolArgs(v value) []*Term {
@@ -315,7 +316,10 @@ func (i *interpreter) fault(site string) bool {
 		}
 		return false
 	}
-	if !i.faultsOn || i.faultsUsed >= i.faultBudget {
+	// a site that has failed once may keep failing (a persistent fault: full disk, closed peer)
+	// without using up more of the budget: the budget counts failing sites, not occurrences
+	again := i.faultedSites[site]
+	if !i.faultsOn || (!again && i.faultsUsed >= i.faultBudget) {
 		return false
 	}
 	if i.faultFilter != nil && !i.faultFilter(site) {
@@ -323,7 +327,13 @@ func (i *interpreter) fault(site string) bool {
 	}
 	k := i.decide("fault:"+site, 2, func(int) *Term { return nil })
 	if k == 1 {
-		i.faultsUsed++
+		if !again {
+			i.faultsUsed++
+			if i.faultedSites == nil {
+				i.faultedSites = map[string]bool{}
+			}
+			i.faultedSites[site] = true
+		}
 		i.trace = append(i.trace, "fault@"+key)
 		return true
 	}
